@@ -1112,7 +1112,7 @@ DLLIMPORT cfg_value_t *cfg_setopt(cfg_t *cfg, cfg_opt_t *opt, const char *value)
 				return NULL;
 			}
 
-			if (!is_set(CFGF_DEFINIT, opt->flags) && cfg_init_defaults(sec) != CFG_SUCCESS) {
+			if (cfg_init_defaults(sec) != CFG_SUCCESS) {
 				cfg_free_internal(sec, 0);
 				return NULL;
 			}
